@@ -192,9 +192,11 @@ def stepper_needs(st):
 
 def _stepper_job(keys):
     from pysph.sph.integrator_step import IntegratorStep
-    from pysph.sph.integrator import EulerIntegrator, PECIntegrator
+    from pysph.sph.integrator import (EulerIntegrator, PECIntegrator,
+                                      TVDRK3Integrator, PEFRLIntegrator)
     from pysph.sph.equation import Equation
-    sts = T.discover(IntegratorStep)
+    sts = dict(T.discover(IntegratorStep))
+    sts.update(generated_steppers())
 
     class Nop(Equation):
         def initialize(self, d_idx, d_x):
@@ -217,12 +219,12 @@ def _stepper_job(keys):
 
         def integ(**kw):
             # an integrator with as many stages as the stepper defines
+            if nstage >= 4:
+                return PEFRLIntegrator(**kw)
+            if nstage == 3:
+                return TVDRK3Integrator(**kw)
             return PECIntegrator(**kw) if nstage >= 2 else \
                 EulerIntegrator(**kw)
-        if nstage > 2:
-            notcov.append((key, 'more than two stages: checked through the '
-                           'shipped integrator in C04/C12'))
-            continue
         arrays = [make_array('dest', allp | {'x'}),
                   make_array('other', allp | {'x'})]
         base = try_build([Nop(dest='dest', sources=None)], arrays,
@@ -266,6 +268,37 @@ def _stepper_job(keys):
                         % cls.__name__, dict(stepper=key, site='keyword',
                                              name='nosuch')))
     return ncase, covered, notcov, out
+
+
+def generated_steppers():
+    """User-style steppers with 1-5 stages in which every method (initialize
+    and each stage) needs a property of its own that no other method uses,
+    with and without an initialize method."""
+    import importlib.util
+    import os
+    d = os.path.join(os.path.expanduser('~'), 'verif_gen')
+    os.makedirs(d, exist_ok=True)
+    path = os.path.join(d, 'c20_gensteppers_%d.py' % os.getpid())
+    src = ['from pysph.sph.integrator_step import IntegratorStep', '']
+    names = []
+    for n in range(1, 6):
+        for init in (0, 1):
+            nm = 'GenStep%d%s' % (n, 'i' if init else '')
+            names.append(nm)
+            src.append('class %s(IntegratorStep):' % nm)
+            if init:
+                src.append('    def initialize(self, d_idx, d_x, d_q0):\n'
+                           '        d_q0[d_idx] = d_x[d_idx]')
+            for k in range(1, n + 1):
+                src.append('    def stage%d(self, d_idx, d_x, d_q%d, dt):\n'
+                           '        d_x[d_idx] += dt*d_q%d[d_idx]' % (k, k, k))
+            src.append('')
+    with open(path, 'w') as f:
+        f.write('\n'.join(src))
+    spec = importlib.util.spec_from_file_location('c20_gensteppers', path)
+    mod = importlib.util.module_from_spec(spec)
+    spec.loader.exec_module(mod)
+    return {'generated.' + nm: getattr(mod, nm) for nm in names}
 
 
 def generated_equations():
@@ -324,7 +357,7 @@ def run(ctx):
     from pysph.sph.equation import Equation
     from pysph.sph.integrator_step import IntegratorStep
     eqs = list(T.discover(Equation))
-    sts = list(T.discover(IntegratorStep))
+    sts = list(T.discover(IntegratorStep)) + sorted(generated_steppers())
     jobs = [('eq', eqs[i::32]) for i in range(32)]
     jobs += [('st', sts[i::4]) for i in range(4)]
     jobs += [('gen', None)]
@@ -368,7 +401,11 @@ def run(ctx):
                     'from the destination / from one of two sources, '
                     'alternating flat list / group / sub-group; + dest that '
                     'is its own source; + misspelt dest/source; every '
-                    'shipped stepper x every d_* name x first/later array; '
+                    'shipped stepper (any number of stages: Euler/PEC/'
+                    'TVD-RK3/PEFRL integrator chosen by stage count) and 10 '
+                    'generated steppers (1-5 stages, each method needing a '
+                    'property of its own) x every d_* name x first/later '
+                    'array; '
                     '+ one generated equation per precomputed symbol')
     assumptions = ['reaching AccelerationEvalCythonHelper.compile counts as '
                    '"reached compilation"; nothing is compiled',
